@@ -314,6 +314,12 @@ def units(tier, seed):
     ladder = [15, 16, 17, 31, 32, 33, 63, 64, 65, 127, 128, 129, 255, 256, 257, 511, 512, 513, 1000, 1001, 1023, 1024, 1025] + ([] if tier == "quick" else [2047, 2048, 2049, 4095, 4096, 4097])
     for n in ladder:
         us.append({"kind": "ladder", "n": n, "seed": seed})
+    # dense ranges (every size, not only around powers of two: a defect may sit at one particular size)
+    mmax, nmax = (160, 130) if tier == "quick" else (600, 400)
+    for lo in range(1, mmax + 1, 20):
+        us.append({"kind": "dense", "what": "m", "lo": lo, "hi": min(mmax, lo + 19), "seed": seed})
+    for lo in range(1, nmax + 1, 26):
+        us.append({"kind": "dense", "what": "n", "lo": lo, "hi": min(nmax, lo + 25), "seed": seed})
     target = 4000 if tier == "quick" else 24000
     for n, m in shapes(2, 9):
         us += full_units(n, m, [0.0, 1.0, 2.0], True, target, "base")
@@ -439,6 +445,23 @@ def check_bign(ctx, n, m):
 def run_unit(unit, ctx):
     if unit["kind"] == "full":
         run_full(unit, ctx)
+    elif unit["kind"] == "dense":
+        sd = unit["seed"]
+        for k in range(unit["lo"], unit["hi"] + 1):
+            if unit["what"] == "m":
+                n, m = 4, k
+            else:
+                n, m = k, 2
+            # members on an integer ramp with ties; observations below, inside (tied with a member), inside
+            # (between members) and above the ensemble
+            ens = [[float(((j * 3 + i) // 2) % max(2, m // 2 + 1)) for j in range(m)] for i in range(n)]
+            obs = [[-1.0, 0.0, 0.5, float(m + 2)][(i + sd) % 4] for i in range(n)]
+            ctx.count("dense.cases")
+            _TOLX[0] = 1000.0 if max(n, m) > 100 else 1.0
+            try:
+                check_case(ctx, obs, ens)
+            finally:
+                _TOLX[0] = 1.0
     elif unit["kind"] == "ladder":
         n, sd = unit["n"], unit["seed"]
         for m in (1, 3):
@@ -468,6 +491,6 @@ def replay(case):
         return [v for lst in ctx.violations.values() for v in lst]
     obs = [NAN if v is None else float(v) for v in case["obs"]]
     ens = [[float(v) for v in row] for row in case["ens"]]
-    _TOLX[0] = 1000.0 if len(obs) > 100 else 1.0
+    _TOLX[0] = 1000.0 if max(len(obs), len(ens[0]) if ens else 0) > 100 else 1.0
     check_case(ctx, obs, ens)
     return [v for lst in ctx.violations.values() for v in lst]
